@@ -54,6 +54,7 @@ func c07Script(rng *rand.Rand) (sig, detail string, trace []string, shape string
 	peer := &scen.Script{Tr: tr, AutoConnack: true, AutoPing: true}
 	cli, conn := scen.NewBase(tr, peer)
 	conn.Chunk = []int{0, 0, 1, 3}[rng.Intn(4)]
+	conn.SlowReturn = []int{0, 0, 2}[rng.Intn(3)] // a late-returning Write: the acknowledgement may be processed before the writer continues
 	if err := scen.ConnectBase(cli); err != nil {
 		return "harness", err.Error(), nil, "", stats
 	}
@@ -246,6 +247,24 @@ func c07Script(rng *rand.Rand) (sig, detail string, trace []string, shape string
 				codes[j] = []byte{0, 1, 2, 0x80}[rng.Intn(4)]
 			}
 			if i == wrongLenCall {
+				// the wrong-length SUBACK makes the library close the connection: every other call must
+				// have returned before (a call whose acknowledgement arrives together with the close may
+				// legitimately pick the close in its select)
+				deadline := time.Now().Add(scen.Watchdog)
+				for time.Now().Before(deadline) {
+					mu.Lock()
+					pending := 0
+					for j, o := range calls {
+						if j != i && !o.done {
+							pending++
+						}
+					}
+					mu.Unlock()
+					if pending == 0 {
+						break
+					}
+					time.Sleep(100 * time.Microsecond)
+				}
 				k.wrongLen = true
 				if rng.Intn(2) == 0 {
 					codes = append(codes, byte(rng.Intn(3)))
